@@ -225,6 +225,31 @@ def build(desc):
             lcrc, lcs, lus = crc_field, csize, usize
         if lz64:
             lcs, lus = S32, S32
+        if "lx_layout" in e:
+            # the LOCAL extra field laid out record by record (see cx_layout below): ("z64", delta) holds one value per size field listed
+            # in e["lsent"] (whose 32-bit fields then hold the marker)
+            lsent = e.get("lsent", ())
+            if "us" in lsent:
+                lus = S32
+            if "cs" in lsent:
+                lcs = S32
+            lx = b""
+            for item in e["lx_layout"]:
+                if item[0] == "z64":
+                    vals = [v_ for f_, v_ in (("us", usize), ("cs", csize)) if f_ in lsent]
+                    if item[1] < 0:
+                        vals = vals[:item[1]]
+                    elif item[1] > 0:
+                        vals = vals + [0x1122334455667788] * item[1]
+                    lx += tlv([(1, b"".join(struct.pack("<Q", v_) for v_ in vals))])
+                elif item[0] == "aes":
+                    body = aes_extra[0][1] if aes_extra else struct.pack("<H2sBH", 2, b"AE", 3, method)
+                    lx += tlv([(0x9901, body[:item[1]])])
+                else:
+                    lx += tlv([item])
+            lx += e.get("lx_tail", b"")
+            if e.get("lx_cut"):
+                lx = lx[:-1]
         lname = e.get("lname", name)
         out += struct.pack("<IHHHHHIIIHH", 0x04034b50, e.get("vneed", 20), flags, real_method, time_, date,
                            lcrc, lcs, lus, len(lname), len(lx)) + lname + lx
